@@ -565,6 +565,10 @@ class Exec(ExprMixin, CallMixin):
         for r in mod:
           new = z3.Store(new, r, fresh('hvf_' + f, Val))
         h = h.set('f:' + f, new)
+    if mod is None:
+      from pyvc.state import cls_fn as _cls_fn
+      facts.append(tuples_immutable(st.heap.get('llen'), st.heap.get('lelt'), h.get('llen'), h.get('lelt'),
+                                    st.heap.alloc, _cls_fn))
     # ghost state: any callee in the body may write the ghost names it declares
     gnames = set(n for n in h.names() if n.startswith('g:') or n.startswith('ga:'))
     for c_ in C.REGISTRY.values():
